@@ -18,7 +18,7 @@ from __future__ import annotations
 import core
 from props import c06
 
-READY = False
+READY = True
 MANIFEST = dict(
     technique='Lean 4 simulation theorem (consumer model vs provider content under an explicit, decidable description '
               'predicate on the reports of one transaction) + differential correspondence on the real provider/consumer pair',
@@ -84,7 +84,7 @@ def run(ctx):
         ctx.hist['oracle-failure:' + f['signature']] -= 1
     for k, v in hist.items():
         ctx.count(k, v)
-    results += c06.run_cases(ctx, 'c01', ctx.n(10, 200), ctx.n(2, 4), n_tx=(5, 12), **KW)
+    results += c06.run_cases(ctx, 'c01', ctx.n(10, 480), ctx.n(2, 4), n_tx=(5, 12), **KW)
     for r in results:
         if r.case.get('describe'):
             ctx.count('transactions-checked-against-reportsDescribe', len(r.lines))
@@ -94,6 +94,10 @@ def run(ctx):
         for k, v in r.stats.items():
             ctx.count('events:' + k, v)
     ctx.traces = sum(len(r.lines) for r in results)
+    ctx.notes['explanation'] = ('every case: real provider history, loss-free in-order delivery from a random load point; after '
+                                'every report model == real ConsumerMdib (content delta, version group, notifications); after '
+                                'every transaction real consumer snapshot == real provider snapshot; reportsDescribe evaluated by '
+                                'the model driver on every transaction (count: transactions-checked-against-reportsDescribe)')
     c06.compare_with_model(ctx, results, driver='drv_c06')
 
 
